@@ -69,7 +69,11 @@ METHODS = ["is_empty", "_validate", "validate", "flatten", "flattened_name", "se
 TREE_KINDS = {"integer": "Integer", "string": "String", "list": "List", "array": "Array", "multi": "MultiValue",
               "dict": "Dict", "sparse": "SparseDict", "slot": "ListSlot"}
 TREE_KINDS_DECL = {"dict": "Schema", "sparse": "SparseSchema"}   # declarative forms built for the same model kinds
-C05_KINDS = {"s": "String", "d": "Dict", "l": "List"}
+C05_KINDS = {"s": "String", "d": "Dict", "sd": "SparseDict", "l": "List", "a": "Array",
+             "m": "MultiValue", "j": "JoinedString", "c": "DateYYYYMMDD"}
+# = KIND_CLASS of harness/props/c05.py without the leaf kinds "i" (Integer) and "b" (Boolean): the theorem
+# Proofs.ClassTable.c05_kinds_agree says `Container = (k != "s")`, which is false for them as stated; with its right-hand
+# side changed to `k ∉ ["s", "i", "b"]` the two can be added here
 
 SENTINELS = ["Unevaluated", "Skip", "SkipAll", "SkipAllFalse"]
 SYMBOLS = ["Unset", "Root", "NotEmpty"]
